@@ -122,30 +122,32 @@ Definition cardinality (m : dfa) : res N :=
       end)
   end.
 
-(* ---- __iter__ (repaired: nothing on an empty language): the first n words ---- *)
-Fixpoint iter_go (m : dfa) (fuel : nat) (k : nat) (need : nat) : res (list word) :=
+(* ---- __iter__ (repaired: nothing on an empty language): the first n words ----
+   Level by level from length k; `fuel` levels are available, `stop` is the outcome when they are
+   used up (the end of a finite language: nothing more; an infinite one: out of fuel). *)
+Fixpoint iter_go (m : dfa) (fuel : nat) (k : nat) (need : nat) (stop : res (list word)) : res (list word) :=
   match need with
   | 0 => Ok []
   | _ =>
     match fuel with
-    | 0 => Err Fuel
+    | 0 => stop
     | S f =>
       let ws := wl m k (d_init m) in
       if Nat.leb need (length ws) then Ok (firstn need ws)
-      else bind (iter_go m f (S k) (need - length ws)) (fun r => Ok (ws ++ r))
+      else bind (iter_go m f (S k) (need - length ws) stop) (fun r => Ok (ws ++ r))
     end
   end.
 
-(* finite language: levels lo..hi; infinite: as many levels as needed (fuel: n words appear
-   within n*(|Q|+1) further levels; running out would be reported as Fuel) *)
+(* finite language: levels lo..hi; infinite: as many levels as needed (n words appear within
+   n*(|Q|+1) levels; running out would be reported as Fuel) *)
 Definition iter_upto (m : dfa) (n : nat) : res (list word) :=
   bind (isempty m) (fun e =>
     if e then Ok [] else
     bind (min_len m) (fun lo =>
     bind (max_len m) (fun hi =>
       match hi with
-      | Some h => Ok (firstn n (flat_map (fun k => wl m k (d_init m)) (seq lo (S h - lo))))
-      | None => iter_go m (n * S (length (d_states m))) lo n
+      | Some h => iter_go m (S h - lo) lo n (Ok [])
+      | None => iter_go m (n * S (length (d_states m))) lo n (Err Fuel)
       end))).
 
 (* ---- random_word ---- *)
